@@ -1831,7 +1831,10 @@ func (a *align) Pssm(log bool, pseudocount float64, normalization int) (pssm map
 	/* Initialize entropy if NORM_LOGO*/
 	entropy = make([]float64, a.Length())
 	/* Applying normalization factors */
-	for k, v := range pssm {
+	/* Characters are visited in the order of the alphabet, so that the entropy
+	is summed the same way at each call (map iteration order is random) */
+	for _, k := range alphabet {
+		v := pssm[k]
 		for i := range v {
 			v[i] = v[i] * normfactors[k]
 			if normalization == PSSM_NORM_LOGO {
